@@ -113,6 +113,7 @@ func (fr *Frame) call(in ssa.Instruction, c *ssa.CallCommon, st *State, g string
 			id := func(v SV) string { return app("kvval", app("select", h, sarr(v.t)), soff(v.t), slen(v.t)) }
 			fc.assume(g, eq(res[0].t, eq(id(args[0]), id(args[1]))))
 		}
+		fr.seqEqualFact(key, args, res, st, g) // ext_seqequal.go
 		return res
 	}
 	if callee != nil && len(callee.Blocks) > 0 && fc.eng.isRepoFunc(callee) {
@@ -301,6 +302,9 @@ func (fr *Frame) applySpecClosure(spec *FuncSpec, key string, sig *types.Signatu
 		}
 		if fr.trustsPre(key) {
 			fc.assumes["no-panic condition of "+key+" assumed at its call sites in "+funcKey(fr.fn)+" (trustpre): !("+cl.Text+")"] = true
+		} else if ob, prop := fr.panicPropagation(t); prop {
+			// caller documents its own panics: the callee's panic must fall under them (ext_panicprop.go)
+			fc.oblige(fr, "panic-spec", fmt.Sprintf("%s:%d", key, i), g, ob, pos, "callee panics when "+cl.Text+": only under the caller's documented panic condition", fr.props())
 		} else {
 			fc.oblige(fr, "pre", fmt.Sprintf("%s:nopanic%d", key, i), g, not(t), pos, "callee panics when "+cl.Text, fr.props())
 		}
